@@ -142,7 +142,7 @@ def core_cases():
     out = []
     for kind in ('async-thread', 'sync-thread', 'async-process'):
         # A is abandoned by its timeout; the waiter B needs the slot A's late result frees
-        out.append({'kind': kind, 'capacity': 1, 'workers': 1, 'callers': [dict(A, timeout=0.02), dict(W)]})
+        out.append({'kind': kind, 'capacity': 1, 'workers': 1, 'callers': [dict(A, timeout=0.02), dict(W)], 'sessions': 2})
     # the same with A's calling task cancelled
     out.append({'kind': 'async-thread', 'capacity': 1, 'workers': 1, 'callers': [dict(A, cancel_after=10), dict(W)]})
     # two waiters; the first one's caller goes away in the very loop iteration in which A's result is delivered
@@ -189,7 +189,8 @@ def gen_case(rng, idx):
     for s_ in callers:
         if s_['timeout'] == 'at-result':
             s_['timeout'] = s_['dur'] / 1000 + rng.choice([0, 0.0002, 0.001])
-    return {'kind': kind, 'capacity': cap, 'workers': rng.choice([1, 1, 2]), 'callers': callers, 'nst': rng.choice([0, 0, 0, 3])}
+    return {'kind': kind, 'capacity': cap, 'workers': rng.choice([1, 1, 2]), 'callers': callers, 'nst': rng.choice([0, 0, 0, 3]),
+            'sessions': rng.choice([1, 1, 2])}
 
 
 def _servlet(c):
@@ -224,14 +225,17 @@ def _classify(e):
 
 def run_async(c):
     from mpservice.mpserver import AsyncServer
-    log = []
-    glog = [True]
-    res = {'log': log, 'glog': glog}
+    # the same server object is entered `sessions` times, each time under a new event loop (asyncio.run); what is reported is
+    # the last session
+    server = AsyncServer(_servlet(c), capacity=c['capacity'])
+    state = {}
 
     async def main():
-        server = AsyncServer(_servlet(c), capacity=c['capacity'])
+        log, glog, res = state['log'], state['glog'], state['res']
         server._verif_ledger_log = log
-        server._verif_gate_log = glog
+        # (with several sessions the server keeps its own condition object: replacing it at every enter would hide a
+        # condition that outlives an event loop; the gate replay is then skipped)
+        server._verif_gate_log = glog if c.get('sessions', 1) == 1 else None
         loop = asyncio.get_running_loop()
         loop_errors = res.setdefault('loop_errors', [])
         loop.set_exception_handler(lambda lp, ctx: loop_errors.append(f"{ctx.get('message')}: {ctx.get('exception')!r}"[:200]))
@@ -278,8 +282,16 @@ def run_async(c):
             t1 = time.monotonic()
         res['exit_s'] = round(time.monotonic() - t1, 3)
 
-    asyncio.run(main())
-    return res
+    for sess in range(c.get('sessions', 1)):
+        log, glog = [], [True]
+        state.update(log=log, glog=glog, res={'log': log, 'glog': glog})
+        try:
+            asyncio.run(main())
+        except BaseException as e:  # noqa
+            if c.get('sessions', 1) > 1:
+                raise RuntimeError(f'session {sess + 1} of {c["sessions"]} with the same AsyncServer object failed: {e!r}'[:280]) from e
+            raise
+    return state['res']
 
 
 def run_sync(c):
@@ -348,7 +360,7 @@ def run_case(c):
         return {'hung': True}
     r = box['res']
     if 'glog' in r:
-        r['glog'] = r['glog'][1:]
+        r['glog'] = r['glog'][1:] if c.get('sessions', 1) == 1 else []
     if 'log' in r:
         log = r['log']
         b = pk = 0
